@@ -271,6 +271,13 @@ class Ctx:
     def harness_build(self):
         with Lock("cargo"):
             rc, out = sh(["cargo", "build", "--offline"], cwd=harness_dir(), timeout=3000)
+            # a failure that is not a compile error of the harness against the tree (rustc could not be started, the
+            # machine was out of processes or memory for a moment) says nothing about /repo: try again before judging
+            tries = 0
+            while rc != 0 and "error[E" not in out and "could not compile" not in out and tries < 3:
+                tries += 1
+                time.sleep(10 * tries)
+                rc, out = sh(["cargo", "build", "--offline"], cwd=harness_dir(), timeout=3000)
         self.harness_ok = rc == 0
         if rc != 0:
             errs = [l for l in out.splitlines() if l.startswith("error")]
